@@ -2,6 +2,7 @@ package checks
 
 import (
 	"fmt"
+	"runtime"
 	"sort"
 	"strings"
 	"time"
@@ -109,6 +110,28 @@ func sortedKeys(ds []delivery, withRetain bool) []string {
 	}
 	sort.Strings(out)
 	return out
+}
+
+// brokerGoroutines returns the stacks of all goroutines that have a gmqtt frame (diagnostics for
+// "the broker did not finish X within the bound" situations).
+func brokerGoroutines() string {
+	buf := make([]byte, 1<<20)
+	buf = buf[:runtime.Stack(buf, true)]
+	var out []string
+	for _, g := range strings.Split(string(buf), "\n\n") {
+		if strings.Contains(g, "DrmagicE/gmqtt/server.") {
+			lines := strings.Split(g, "\n")
+			if len(lines) > 14 {
+				lines = lines[:14]
+			}
+			out = append(out, strings.Join(lines, "\n"))
+		}
+	}
+	s := strings.Join(out, "\n\n")
+	if len(s) > 12000 {
+		s = s[:12000] + "…"
+	}
+	return s
 }
 
 func sleepMs(n int) { time.Sleep(time.Duration(n) * time.Millisecond) }
